@@ -27,7 +27,9 @@ ASSUMPTIONS = [
     "rounding of the spectra, of the solve and of the residual formula is covered by the stated data-scaled tolerances, not by theorem",
     "bins whose Gram matrix T has cond > 1e8 (numerically rank deficient, including every bin with navg <= q) and bins whose output "
     "spectrum is pure rounding noise (segment length <= detrend order + 1) are counted unstable/degenerate, not checked",
-    "the analytic (SymPy, generic Cramer-type solution) solver is only exercised where T is numerically invertible",
+    "the analytic solver evaluates SymPy's closed-form (cofactor-type) solution in floating point, which is not backward stable: its bins are "
+    "checked only where rho = prod_i(sum_j|T_ij|)/|det T| <= 1e10 (relative determinant error ~u*rho; measured residual excess <= 1e-12*B up to "
+    "rho = 1e12, growing like (u*rho)^2 beyond); bins with larger rho are counted unstable for that solver only",
 ]
 RULE = ("cases = (record family: white/coloured/offset+trend/correlated inputs, q in 1..4, gains+delays/FIR couplings+independent noise, "
         "analysis options order/olap/Jdes/Kdes/scheduler/window) x sub-check (bound, least-squares reference, exact combination, permutation, "
@@ -39,6 +41,8 @@ U = 2.0 ** -53
 ETA = 1e-9          # power-like comparisons: |a - b| <= ETA * B, B = S00 + 2 sum|H_i||S_i| + sum|H_j||H_i||T_ji| (magnitude of the formula's terms)
 ETA_EXACT = 1e-12   # exact combination: residual power <= ETA_EXACT * B  (asd <= 1e-6*sqrt(B); B ~ 4*Gyy for well-conditioned inputs)
 COND_MAX = 1e8
+RHO_MAX = 1e10      # analytic (SymPy cofactor-type closed form) solver only: rho = prod_i(sum_j|T_ij|)/|det T| bounds the relative rounding error of
+                    # the evaluated determinants by ~u*rho; the residual is second order in the error of H, measured excess <= 1e-12*B for rho <= 1e12
 RESOLVED = 1e-20    # a bin's output spectrum is "resolved" when Gyy >= RESOLVED * 2*L*max|y|^2/fs (its largest possible value)
 SCHEDS = ["ltf", "vectorized_ltf", "lpsd"]
 FAMILIES = ["white", "coloured", "offset_trend", "correlated", "scaled"]
@@ -187,6 +191,7 @@ class Ingredients:
         self.H = np.zeros((q, nf), dtype=complex)
         self.B = np.full(nf, np.inf)
         self.rref = np.full(nf, np.nan)
+        self.rho = np.full(nf, np.inf)
         for k in range(nf):
             Tk = self.T[:, :, k]
             Sk = self.S[:, k]
@@ -207,7 +212,13 @@ class Ingredients:
             aH = np.abs(Hk)
             self.B[k] = self.S00[k] + 2.0 * float(aH @ np.abs(Sk)) + float(aH @ np.abs(Tk) @ aH)
             self.rref[k] = self.S00[k] - float(np.real(np.vdot(Hk, Sk)))
+            dt = abs(np.linalg.det(Tk))
+            self.rho[k] = float(np.prod(np.abs(Tk).sum(axis=1))) / dt if dt > 0 else np.inf
         self.good = (self.navg > q) & self.resolved & (self.cond <= COND_MAX) & np.isfinite(self.B)
+        self.good_ana = self.good & (self.rho <= RHO_MAX)
+
+    def mask(self, solver: str) -> np.ndarray:
+        return self.good_ana if "analytic" in solver else self.good
 
     def remixed(self, A: np.ndarray) -> "Ingredients":
         """ingredients of x' = A x obtained algebraically (T' = A T A^H, S' = A S): only used for the SCALE B' of the tolerance"""
@@ -279,7 +290,7 @@ def correspondence(ctx) -> C.Part:
                 if not (ing.navg[k] > q and ing.resolved[k]):
                     P.hit("bin_skipped_navg<=q_or_degenerate")
                     continue
-                if not ing.good[k]:
+                if not ing.mask(sv)[k]:
                     P.unstable += 1
                     continue
                 z = model_residual(ctx.driver, q, ing.S00[k], ing.S[:, k], ing.T[:, :, k], ing.H[:, k])
@@ -344,7 +355,7 @@ class Checker:
         if np.iscomplexobj(asd):
             self.viol(c, "grid", sv, "returned ASD is complex")
             return None
-        g = ing.good
+        g = ing.mask(sv)
         bad = g & ~(np.isfinite(asd) & (asd >= 0))
         if bad.any():
             k = int(np.where(bad)[0][0])
@@ -360,6 +371,7 @@ class Checker:
         un = int((nq & ing.resolved & ~ing.good).sum())
         P.unstable += un
         P.hit("bins_checked", int(ing.good.sum()))
+        P.hit("bins_unstable_for_analytic_only", int((ing.good & ~ing.good_ana).sum()))
 
     def cmp_power(self, c, sub, sv, a, b, B, good, what_b, key=None):
         """a, b power-like arrays; |a-b| <= ETA*B on good bins"""
@@ -396,7 +408,7 @@ class Checker:
                 continue
             res[sv] = asd ** 2
             P.hit(f"{sv}_q{q}")
-            g = ing.good
+            g = ing.mask(sv)
             if g.any():
                 P.nontrivial.add(("bound", sv) + keyb)
             # (1) 0 <= residual <= Gyy  (forward rounding of the formula: ETA*B, B >= Gyy)
@@ -415,7 +427,7 @@ class Checker:
         # (4) analytic vs numeric
         if "numeric" in res and "analytic" in res:
             P.cases += 1
-            if self.cmp_power(c, "solvers_agree", "analytic-vs-numeric", res["analytic"], res["numeric"], 2 * ing.B, ing.good, "numeric solver gives"):
+            if self.cmp_power(c, "solvers_agree", "analytic-vs-numeric", res["analytic"], res["numeric"], 2 * ing.B, ing.good_ana, "numeric solver gives"):
                 P.nontrivial.add(("solvers_agree",) + keyb)
         # (5) q = 1
         if q == 1:
@@ -424,13 +436,13 @@ class Checker:
             ref = np.asarray(r2.Gyy, dtype=float) * (1.0 - np.asarray(r2.coh, dtype=float))
             for sv in res:
                 P.cases += 1
-                if self.cmp_power(c, "siso_identity", sv, res[sv], ref, ing.B, ing.good, "Gyy*(1-coh) from the two-channel analysis is"):
+                if self.cmp_power(c, "siso_identity", sv, res[sv], ref, ing.B, ing.mask(sv), "Gyy*(1-coh) from the two-channel analysis is"):
                     P.nontrivial.add(("siso_identity", sv) + keyb)
             if "siso" in res:
                 for sv in ("numeric", "analytic"):
                     if sv in res:
                         P.cases += 1
-                        if self.cmp_power(c, "siso_vs_miso", sv, res[sv], res["siso"], 2 * ing.B, ing.good, "SISO function gives"):
+                        if self.cmp_power(c, "siso_vs_miso", sv, res[sv], res["siso"], 2 * ing.B, ing.mask(sv), "SISO function gives"):
                             P.nontrivial.add(("siso_vs_miso", sv) + keyb)
         # (2) exact static combination
         ye = sum(cj * xj for cj, xj in zip(c["coeffs"], xs))
@@ -444,7 +456,7 @@ class Checker:
                 asd = self.run_fn(c, "exact_combination", sv, xs, ye, inge)
                 if asd is None:
                     continue
-                g = inge.good
+                g = inge.mask(sv)
                 if g.any():
                     P.nontrivial.add(("exact", sv) + keyb)
                 pw = asd ** 2
@@ -468,13 +480,12 @@ class Checker:
             variants.append(("remix", [sum(A[i, j] * xs[j] for j in range(q)) for i in range(q)], A))
             for name, xv, M in variants:
                 ingv = ing.remixed(M)
-                g = ing.good & ingv.good
                 P.unstable += int((ing.good & ~ingv.good).sum())
                 for sv in self.solvers_for(q):
                     if sv not in res:
                         continue
-                    ingv_ = ingv
-                    asd = self.run_fn(c, name, sv, xv, y, _with_good(ingv_, g))
+                    g = ing.mask(sv) & ingv.mask(sv)
+                    asd = self.run_fn(c, name, sv, xv, y, _with_good(ingv, g))
                     if asd is None:
                         continue
                     if self.cmp_power(c, name, sv, asd ** 2, res[sv], ing.B + ingv.B, g, "original inputs give"):
@@ -486,6 +497,7 @@ def _with_good(ing: Ingredients, g: np.ndarray) -> Ingredients:
     o = object.__new__(Ingredients)
     o.__dict__.update(ing.__dict__)
     o.good = g
+    o.good_ana = g
     return o
 
 
